@@ -17,9 +17,9 @@ func init() {
 		NotDecided: "byte identity after arbitrary histories; range arithmetic (net/http.ServeContent); the full retention policy matrix (C05).",
 	})
 	registerProperty(&Property{ID: "C03", DesignRef: "DESIGN.md §4 C03, §3.4",
-		Rules:      []string{"PV-BOUNDS#taglist", "TS-SORT", "TS-REFTAG", "TS-GETDESC", "TS-TAGKEEP", "TS-SAVE#api", "TB-GRAMMAR#tag", "TS-RMDESC"},
+		Rules:      []string{"PV-BOUNDS#taglist", "TS-SORT", "TS-REFTAG", "TS-GETDESC", "TS-TAGKEEP", "TS-SAVE#api", "TB-GRAMMAR#tag", "TS-RMDESC", "SH-ROOTS#safety"},
 		Technique:  "difference-bound (ABCD-style) range proof on go/ssa for request-derived integers; ordering checks on the CFG",
-		Decided:    "every slice bound / index derived from the request's n, page … is proven in range by the dominating conditions (n=0, negative and oversized values cannot panic); the tag list is filled, sorted, truncated, marshalled in that order; a tag is recorded only from a grammar-checked reference; tag lookups return the annotated entry and digest lookups a bare descriptor (what makes ‘delete a tag’ and ‘delete a digest’ differ).",
+		Decided:    "every slice bound / index derived from the request's n, page … is proven in range by the dominating conditions (n=0, negative and oversized values cannot panic); the tag list is filled, sorted, truncated, marshalled in that order; a tag is recorded only from a grammar-checked reference; tag lookups return the annotated entry and digest lookups a bare descriptor (what makes ‘delete a tag’ and ‘delete a digest’ differ); a tagged entry of the index is a root of the collector whatever other entries of the same digest say (a tag that was never deleted is not dropped by a collection).",
 		NotDecided: "the map semantics of AddDesc/RmDesc (value-level, see C18); strictness of the `last` comparison; exactly-once paging.",
 	})
 	registerProperty(&Property{ID: "C04", DesignRef: "DESIGN.md §4 C04, §3.3, §3.6",
@@ -29,9 +29,9 @@ func init() {
 		NotDecided: "well-formedness beyond what the JSON decoder and the reference checks establish; equality of the observable state before/after a refusal as a value.",
 	})
 	registerProperty(&Property{ID: "C05", DesignRef: "DESIGN.md §4 C05, §3.7, §3.2",
-		Rules:      []string{"SH-WORKLIST#skip-set", "SH-MARK-EXHAUSTIVE", "SH-SWEEP-GUARD#safety", "SH-ROOTS#safety", "TS-COMMIT-FRESH", "FS-CLEANUP", "LK-TOKEN#exclusion", "SH-SIBLING-REF#mediatype", "TB-MEDIATYPE"},
+		Rules:      []string{"SH-WORKLIST#skip-set", "SH-MARK-EXHAUSTIVE", "SH-SWEEP-GUARD#safety", "SH-ROOTS#safety", "TS-COMMIT-FRESH", "FS-CLEANUP", "LK-TOKEN#exclusion", "SH-SIBLING-REF#mediatype", "TB-MEDIATYPE", "LK-RMW"},
 		Technique:  "algorithm-shape rules on the typed AST and go/ssa (worklist discipline, field exhaustiveness, dominance of the sweep), lock/typestate analysis for the collector–handler exclusion",
-		Decided:    "mark phase: skip-set discipline (a digest in several roles is still expanded), every descriptor field of image and index manifests and the referrers edge are followed; sweep: removal dominated by the not-marked edge, a modification-time test can skip it, an unmarked blob is kept only on the ‘not an index entry’ edge (retention closed under reference); root selection: every iteration path consistent with tagged / untagged-collection-off / recent appends the entry to the mark worklist (path conditions over the policy atoms); exclusion protocol: token before wait before mutex in the collector, holds only added with the token or before publication (the pairing of RepoGet/Done in handlers is decided under C12).",
+		Decided:    "mark phase: skip-set discipline (a digest in several roles is still expanded), every descriptor field of image and index manifests and the referrers edge are followed; sweep: removal dominated by the not-marked edge, a modification-time test can skip it, an unmarked blob is kept only on the ‘not an index entry’ edge (retention closed under reference); root selection: every iteration path consistent with tagged / untagged-collection-off / recent appends the entry to the mark worklist (path conditions over the policy atoms); exclusion protocol: token before wait before mutex in the collector, holds only added with the token or before publication (the pairing of RepoGet/Done in handlers is decided under C12); the referrers response of a subject is read, extended and re-inserted under one mutex (a referrer lost to a concurrent update is listed nowhere and would be collected although its subject is retained).",
 		NotDecided: "the referrers part of the retention policy matrix; which blobs a given graph retains.",
 	})
 	registerProperty(&Property{ID: "C06", DesignRef: "DESIGN.md §4 C06, §3.7",
